@@ -113,9 +113,9 @@ fn emit(sink: &mut Sink, s: &Schema, v: &Value, src: &str) {
 
 pub fn replay(sink: &mut Sink, toks: &[&str]) {
     if toks.len() < 4 { return; }
-    let s = dec_schema(toks[2]);
-    let v = dec_value(toks[3]);
-    emit(sink, &s, &v, "replay");
+    // a recorded value may not be expressible in this configuration (e.g. the literal 1e400 without arbitrary_precision)
+    let dec = catch_unwind(|| (dec_schema(toks[2]), dec_value(toks[3])));
+    if let Ok((s, v)) = dec { emit(sink, &s, &v, "replay"); }
 }
 
 fn j(s: &str) -> Value { serde_json::from_str(s).expect("corpus literal") }
@@ -216,7 +216,7 @@ fn corpus(sink: &mut Sink) {
 pub fn run(sink: &mut Sink, thorough: bool, seed: u64) {
     let mut r = Rng::new(seed);
     corpus(sink);
-    let n = if thorough { 400_000 } else { 40_000 };
+    let n = if thorough { 2_000_000 } else { 200_000 };
     for i in 0..n {
         let depth = match i % 8 { 0 => 0, 1 | 2 | 3 => 1, 4 | 5 | 6 => 2, _ => 3 };
         let s = gen_schema(&mut r, depth);
